@@ -336,6 +336,31 @@ func corpusText(b *fw.B, e schemas.Entry, preset string, spec *common.Spec, enc 
 		return false
 	}
 	b.Inc("json_roundtrips")
+	// the same value held by value (not addressable): text marshallers with pointer receivers are invisible to encoding/json there
+	if rv := reflect.ValueOf(o.obj); rv.Kind() == reflect.Ptr && !rv.IsNil() {
+		var verr error
+		var vout []byte
+		if !b.NoPanic("json/panic/"+e.Name, func() {
+			data, err := json.Marshal(rv.Elem().Interface())
+			if err != nil {
+				verr = err
+				return
+			}
+			o2 := sszObj{spec, e.New()}
+			if err := json.Unmarshal(data, o2.obj); err != nil {
+				verr = fmt.Errorf("unmarshal: %v (json %s)", err, trunc(string(data), 200))
+				return
+			}
+			vout, verr = o2.serialize()
+		}) {
+			return false
+		}
+		if verr != nil || !bytes.Equal(vout, enc) {
+			b.Violate("json/roundtrip-by-value/"+e.Name, fmt.Sprintf("%s (%s preset): the JSON form of the value passed by value does not round-trip to the same value: %v", e.Name, preset, verr), map[string]any{"ssz_hex": fmt.Sprintf("%x", enc[:min(len(enc), 2000)])})
+			return false
+		}
+		b.Inc("json_roundtrips_by_value")
+	}
 	var yerr error
 	var yout []byte
 	if !b.NoPanic("yaml/panic/"+e.Name, func() {
